@@ -3,6 +3,10 @@
   Property theorems only; helper lemmas live in Proofs/.
 -/
 import Proofs.Stable
+import Proofs.C04_Literal
+import Proofs.C04_Text
+import Proofs.C04_Chains
+import Proofs.C04_Top
 namespace Mammoth
 
 /-- the match test of the code: the earlier tag's name is one of the later tag's names and the
@@ -81,5 +85,263 @@ example : collapse [.elem olFresh [.text S!"a"], .elem ulTag [.text S!"b"]]
     = [.elem olFresh [.text S!"a", .text S!"b"]] := by rfl
 example : stableL [.elem olFresh [], .elem olFresh []] = true := by rfl
 example : noSepL [.elem olFresh [.text S!"a"], .elem ulTag [.text S!"b"]] = true := by rfl
+
+/-! ### the literal algorithm of the code
+
+`collapseAllPy` / `addPy` / `collapseNodePy` transcribe `collapse`, `_collapsing_add`, `_collapse_node` of
+mammoth/html/__init__.py statement by statement: when a node is merged into its predecessor, its
+children — which `_collapse_node` has just collapsed — are passed through `_collapsing_add` again, so
+they are collapsed a second time.  The theorems above are about the structural `collapse`, which adds
+the collapsed children without collapsing them again.  The two agree because collapsing is idempotent
+(`C04_stable_fixed` is used on the collapsed children); the fuel of the transcription only has to
+exceed three times the nesting depth (three mutually recursive calls per level). -/
+
+/-- THE LITERAL ALGORITHM COMPUTES `collapse`: for EVERY forest `ns` and every fuel with
+    `3 * depth ≤ fuel + 1` (any fuel for a forest of text nodes, `3 * depth - 1` otherwise). -/
+theorem C04_literal_algorithm (ns : List Node) (fuel : Nat) (h : 3 * nodeDepthL ns ≤ fuel + 1) :
+    collapseAllPy fuel [] ns = collapse ns := collapseAllPy_eq fuel [] ns h
+
+/-- the same with an arbitrary list `acc` of already collapsed siblings (no hypothesis on `acc` is needed) -/
+theorem C04_literal_algorithm_acc (acc ns : List Node) (fuel : Nat) (h : 3 * nodeDepthL ns ≤ fuel + 1) :
+    collapseAllPy fuel acc ns = collapseFrom acc ns := collapseAllPy_eq fuel acc ns h
+
+/-- `_collapse_node` is `collapseNode` -/
+theorem C04_literal_node (n : Node) (fuel : Nat) (h : 3 * nodeDepth n ≤ fuel + 3) :
+    collapseNodePy fuel n = collapseNode n := collapseNodePy_eq fuel n h
+
+/-- `_collapsing_add(collapsed, node)` collapses `node` and adds it by the merge rule `addC`
+    (`C04_merge_rule`), whatever `collapsed` is -/
+theorem C04_literal_add (acc : List Node) (n : Node) (fuel : Nat) (h : 3 * nodeDepth n ≤ fuel + 2) :
+    addPy fuel acc n = addC acc (collapseNode n) := addPy_eq fuel acc n h
+
+/-- merging never deepens the forest (this is why a bound on the input's depth is enough fuel for
+    the second pass over the collapsed children) -/
+theorem C04_depth_le (ns : List Node) : nodeDepthL (collapse ns) ≤ nodeDepthL ns := by
+  simpa [collapse] using nodeDepthL_collapseFrom [] ns
+
+/-! non-vacuity and sharpness of the fuel bound: a forest of depth 2 with nested merges; fuel 5 is enough,
+    and with fuel `3 * depth - 2` the transcription stops early (depth 1, fuel 1: nothing is merged) -/
+private def ulC : Tag := { name := S!"ul", collapsible := true }
+private def litForest : List Node :=
+  [.elem pTag [.elem ulC [.text S!"a"], .elem ulC [.text S!"b"]], .elem pTag [.elem ulC [.text S!"c"]]]
+example : 3 * nodeDepthL litForest ≤ 5 + 1 := by decide
+example : collapseAllPy 5 [] litForest = collapse litForest := C04_literal_algorithm _ _ (by decide)
+example : collapse litForest =
+    [.elem pTag [.elem ulC [.text S!"a", .text S!"b"], .text S!"\n", .elem ulC [.text S!"c"]]] := by rfl
+example : 3 * nodeDepth (.elem pTag litForest) ≤ 6 + 3 ∧ 3 * nodeDepth (.elem pTag litForest) ≤ 7 + 2 := by decide
+example : collapseAllPy 1 [] [.elem ulC [.text S!"a"], .elem ulC [.text S!"b"]]
+    = [.elem ulC [.text S!"a"], .elem ulC [.text S!"b"]] := by simp [collapseAllPy, addPy]
+example : collapse [.elem ulC [.text S!"a"], .elem ulC [.text S!"b"]] = [.elem ulC [.text S!"a", .text S!"b"]] := by rfl
+
+/-! ### text, separators included (no `noSepL` hypothesis)
+
+`IsDecoL ns s` (Proofs/C04_Text.lean) is defined by recursion over the forest `ns` alone: `s` is the text of
+`ns`, leaf by leaf in order, where in front of the content of an element there may stand that element's own
+`:separator` string, and only if the element is collapsible (not `:fresh`). -/
+
+/-- TEXT WITH SEPARATORS, every forest: the text of `collapse ns` is the text of `ns` with separators
+    inserted, each directly in front of the content of the element that carries it, and only for collapsible
+    elements.  Excluded: losing, duplicating or reordering any character of the input text; inserting
+    anything but separators; inserting an element's separator anywhere but directly in front of that
+    element's content, or more than once; inserting the separator of a `:fresh` element.  Not said here:
+    WHICH collapsible elements get their separator (those that are merged: `C04_merge_rule`; their total
+    length is fixed by `C04_text_conservation`). -/
+theorem C04_text_with_separators (ns : List Node) : IsDecoL ns (textOfL (collapse ns)) := isDecoL_collapse ns
+
+/-- nothing is lost, duplicated or reordered, separators or not: the input text is a subsequence of the
+    output text, for EVERY forest -/
+theorem C04_text_sublist (ns : List Node) : (textOfL ns).Sublist (textOfL (collapse ns)) :=
+  sublistL_of_isDecoL ns _ (isDecoL_collapse ns)
+
+/-- CONSERVATION: (length of the text) + (total length of the non-empty separators of all elements present,
+    `sepWeightL`) is the same before and after.  Every element that disappears by being merged leaves exactly
+    its separator in the text, and nothing else changes the text length. -/
+theorem C04_text_conservation (ns : List Node) :
+    (textOfL (collapse ns)).length + sepWeightL (collapse ns) = (textOfL ns).length + sepWeightL ns :=
+  mass_collapse ns
+
+/-- so at most the separators of the forest are added -/
+theorem C04_text_length_le (ns : List Node) :
+    (textOfL (collapse ns)).length ≤ (textOfL ns).length + sepWeightL ns := by
+  have := C04_text_conservation ns; omega
+
+/-- the relation is tight: in a forest without separators the only "text with separators" is the text
+    itself (so `C04_text_with_separators` contains `C04_text_preserved`) -/
+theorem C04_deco_exact_noSep (ns : List Node) (s : Str) (h : IsDecoL ns s) (hn : noSepL ns = true) :
+    s = textOfL ns := eq_of_isDecoL_noSep ns s h hn
+
+/-! non-vacuity: with separators the text does change, by exactly the separator of the merged element -/
+example : textOfL (collapse [.elem pTag [.text S!"a"], .elem pTag [.text S!"b"]]) = S!"a\nb" := by decide
+example : sepWeightL [.elem pTag [.text S!"a"], .elem pTag [.text S!"b"]] = 2 ∧
+    sepWeightL (collapse [.elem pTag [.text S!"a"], .elem pTag [.text S!"b"]]) = 1 := by decide
+example : IsDecoL [.elem pTag [.text S!"a"], .elem pTag [.text S!"b"]] S!"a\nb" :=
+  C04_text_with_separators [.elem pTag [.text S!"a"], .elem pTag [.text S!"b"]]
+
+/-! ### leaves and their chains of enclosing tags
+
+`leaves ns` (Proofs/C04_Chains.lean): the text nodes and force-write markers of the forest in document order,
+each paired with the tags of its enclosing elements, outermost first.  `tagStep i o`: `o` has the attributes of
+`i` and `o`'s name is `i`'s name or one of its `|` alternatives (what one merge does to the tag above a leaf).
+`LeafEmb R Sep as bs`: `bs` is `as`, in order, every leaf node unchanged and its chain related position by
+position by `R` (in particular of the same length), with extra leaves satisfying `Sep` inserted.
+`SepIn ns n`: `n` is the separator text node of a collapsible tag occurring in `ns`. -/
+
+/-- NEVER JOINS DIFFERENT ELEMENTS, every forest.  The leaves of `collapse ns` are the leaves of `ns`, in the
+    same order and unchanged, plus separator text leaves; the chain of each leaf keeps its length, and at
+    each position the output tag is reached from the input tag by finitely many merge steps (`TagReach`):
+    in particular it has IDENTICAL ATTRIBUTES (`C04_reach_attrs`).  So no leaf is dropped, duplicated,
+    reordered, moved to another depth, or put under an element with different attributes.
+    Why `TagReach` and not a single step: see `C04_alternatives_not_transitive` below. -/
+theorem C04_never_joins_different (ns : List Node) :
+    LeafEmb TagReach (SepIn ns) (leaves ns) (leaves (collapse ns)) :=
+  leaves_collapse_reach ns ns (allTagsL_tagsOfL ns)
+
+/-- along merge steps the attributes never change -/
+theorem C04_reach_attrs (i o : Tag) (h : TagReach i o) : o.attrs = i.attrs := h.attrs
+
+/-- …and when the tag names of the forest are linked transitively (`namesTrans`: e.g. no alternatives at
+    all, or `ul|ol` together with `ul`, `ol`), every position of every chain changes by AT MOST ONE merge
+    step: the element above a leaf in the output has the attributes of the leaf's own ancestor at that depth
+    and its name is that ancestor's name or one of its `|` alternatives. -/
+theorem C04_chains_one_step (ns : List Node) (h : namesTrans (tagsOfL ns) = true) :
+    LeafEmb tagStep (SepIn ns) (leaves ns) (leaves (collapse ns)) :=
+  leaves_collapse_step ns ns (allTagsL_tagsOfL ns) h
+
+/-- without separators nothing is inserted: the leaves correspond one to one (`chainRel inp out`: same length,
+    position by position `out.attrs = inp.attrs ∧ out.name ∈ inp.names`) -/
+theorem C04_chains_noSep (ns : List Node) (hs : noSepL ns = true) (h : namesTrans (tagsOfL ns) = true) :
+    Forall₂ (fun a b => chainRel a.1 b.1 ∧ a.2 = b.2) (leaves ns) (leaves (collapse ns)) :=
+  (C04_chains_one_step ns h).forall₂ (sepIn_false_of_noSep ns hs)
+
+/-- the same without the hypothesis on names, with `TagReach` at each position -/
+theorem C04_chains_noSep_reach (ns : List Node) (hs : noSepL ns = true) :
+    Forall₂ (fun a b => Forall₂ TagReach a.1 b.1 ∧ a.2 = b.2) (leaves ns) (leaves (collapse ns)) :=
+  (C04_never_joins_different ns).forall₂ (sepIn_false_of_noSep ns hs)
+
+/-- `collapse` preserves the number of leaves when there are no separators -/
+theorem C04_leaf_count (ns : List Node) (hs : noSepL ns = true) :
+    (leaves (collapse ns)).length = (leaves ns).length :=
+  (C04_chains_noSep_reach ns hs).length_eq.symm
+
+/-- the leaf nodes of the input are, in order, among those of the output (every forest) -/
+theorem C04_leaves_sublist (ns : List Node) :
+    ((leaves ns).map Prod.snd).Sublist ((leaves (collapse ns)).map Prod.snd) :=
+  (C04_never_joins_different ns).sublist
+
+/-! non-vacuity -/
+private def divC : Tag := { name := S!"div", collapsible := true }
+private def tC : Tag := { name := S!"c", collapsible := true }
+private def tBC : Tag := { name := S!"b", alts := [S!"c"], collapsible := true }
+private def tAB : Tag := { name := S!"a", alts := [S!"b"], collapsible := true }
+example : namesTrans (tagsOfL [.elem olFresh [.text S!"a"], .elem ulTag [.text S!"b"], .elem pTag []]) = true := by
+  decide
+example : noSepL [.elem olFresh [.text S!"a"], .elem ulTag [.text S!"b"]] = true ∧
+    namesTrans (tagsOfL [.elem olFresh [.text S!"a"], .elem ulTag [.text S!"b"]]) = true := by decide
+example : IsDecoL [.elem olFresh [.text S!"a"], .elem ulTag [.text S!"b"]] S!"ab" :=
+  isDecoL_plain [.elem olFresh [.text S!"a"], .elem ulTag [.text S!"b"]]
+example : leaves (collapse [.elem olFresh [.text S!"a"], .elem ulTag [.text S!"b"]])
+    = [([olFresh], .text S!"a"), ([olFresh], .text S!"b")] := by rfl
+example : leaves [.elem olFresh [.text S!"a"], .elem ulTag [.text S!"b"]]
+    = [([olFresh], .text S!"a"), ([ulTag], .text S!"b")] := by rfl
+
+/-- FINDING (alternatives are not transitive).  Without `namesTrans` the one-step statement is FALSE: because
+    the children of a merged element are merged again, the text `z` of an element `a|b` ends up inside an
+    element named `c`, which is neither `a` nor `b` (it first joins its sibling `b|c`, and together they join
+    `c` when the enclosing `div`s merge).  python-mammoth does the same
+    (`html.collapse` gives `div[c['x','y','z']]`); with the three inner elements as direct siblings the
+    result is `c['x','y'], a|b['z']`. -/
+theorem C04_alternatives_not_transitive :
+    collapse [.elem divC [.elem tC [.text S!"x"]],
+              .elem divC [.elem tBC [.text S!"y"], .elem tAB [.text S!"z"]]]
+      = [.elem divC [.elem tC [.text S!"x", .text S!"y", .text S!"z"]]]
+    ∧ collapse [.elem tC [.text S!"x"], .elem tBC [.text S!"y"], .elem tAB [.text S!"z"]]
+      = [.elem tC [.text S!"x", .text S!"y"], .elem tAB [.text S!"z"]]
+    ∧ ¬ tagStep tAB tC
+    ∧ namesTrans [tC, tBC, tAB] = false := by
+  refine ⟨by rfl, by rfl, ?_, by decide⟩
+  intro h
+  have := h.2
+  revert this
+  decide
+
+/-- …so the one-step statement does fail for that forest (it has no separators) -/
+example : ¬ Forall₂ (fun a b => chainRel a.1 b.1 ∧ a.2 = b.2)
+    (leaves [.elem divC [.elem tC [.text S!"x"]], .elem divC [.elem tBC [.text S!"y"], .elem tAB [.text S!"z"]]])
+    (leaves (collapse
+      [.elem divC [.elem tC [.text S!"x"]], .elem divC [.elem tBC [.text S!"y"], .elem tAB [.text S!"z"]]])) := by
+  intro h
+  have e1 : leaves [.elem divC [.elem tC [.text S!"x"]], .elem divC [.elem tBC [.text S!"y"], .elem tAB [.text S!"z"]]]
+      = [([divC, tC], .text S!"x"), ([divC, tBC], .text S!"y"), ([divC, tAB], .text S!"z")] := by rfl
+  have e2 : leaves (collapse
+      [.elem divC [.elem tC [.text S!"x"]], .elem divC [.elem tBC [.text S!"y"], .elem tAB [.text S!"z"]]])
+      = [([divC, tC], .text S!"x"), ([divC, tC], .text S!"y"), ([divC, tC], .text S!"z")] := by rfl
+  rw [e1, e2] at h
+  cases h with
+  | cons _ h => cases h with
+    | cons _ h => cases h with
+      | cons h3 _ =>
+        have h3' : Forall₂ tagStep [divC, tAB] [divC, tC] := h3.1
+        cases h3' with
+        | cons _ h4 => cases h4 with
+          | cons h5 _ =>
+            have := h5.2
+            revert this
+            decide
+
+/-! ### which siblings merge, in terms of the input -/
+
+/-- MERGE IFF, for one more sibling element after any siblings `xs`: the output has no new top-level node
+    (the element was merged into the last output element) IFF the last output node is an element, the new
+    element is not `:fresh`, the earlier name is one of its names and the attributes are identical. -/
+theorem C04_merge_iff (xs : List Node) (t : Tag) (cs : List Node) :
+    (collapse (xs ++ [.elem t cs])).length = (collapse xs).length ↔
+      ∃ lt, lastTag (collapse xs) = some lt ∧ t.collapsible = true ∧ lt.name ∈ t.names ∧ lt.attrs = t.attrs := by
+  rw [C04_collapse_snoc, ← mergesInto_iff]
+  simp only [collapseNode]
+  by_cases h : mergesInto (lastTag (collapse xs)) t = true
+  · obtain ⟨_, _, _, _, _, _, hl⟩ := addC_merges (collapse xs) t (collapseFrom [] cs) h
+    simp [h, hl]
+  · simp only [Bool.not_eq_true] at h
+    rw [addC_not_merges _ t _ h]
+    simp [h]
+
+/-- …when it merges, the result is the earlier element (earlier tag kept) with the separator text and then the
+    collapsed children of the later one added under the same rule -/
+theorem C04_merged_result (xs : List Node) (t : Tag) (cs : List Node)
+    (h : mergesInto (lastTag (collapse xs)) t = true) :
+    ∃ lt lcs, (collapse xs).getLast? = some (.elem lt lcs) ∧
+      collapse (xs ++ [.elem t cs]) =
+        (collapse xs).dropLast ++ [.elem lt (addAllC (lcs ++ sepText t) (collapse cs))] := by
+  rw [C04_collapse_snoc]
+  obtain ⟨lt, lcs, h1, h2, _⟩ := addC_merges (collapse xs) t (collapse cs) h
+  exact ⟨lt, lcs, h1, h2⟩
+
+/-- …otherwise it is appended with its own tag (children collapsed), and nothing before it changes -/
+theorem C04_not_merged_result (xs : List Node) (t : Tag) (cs : List Node)
+    (h : mergesInto (lastTag (collapse xs)) t = false) :
+    collapse (xs ++ [.elem t cs]) = collapse xs ++ [.elem t (collapse cs)] := by
+  rw [C04_collapse_snoc]
+  exact addC_not_merges (collapse xs) t (collapse cs) h
+
+/-- THE TOP-LEVEL NODES OF THE OUTPUT, from the input alone: scan the siblings left to right keeping the tag
+    `cur` of the element that a following element would be merged into (none at the start and after a text
+    node or marker); an element is merged — contributes no top-level node and leaves `cur` as it is — iff
+    `mergesInto cur t`; otherwise it starts a new top-level element and becomes `cur`.  (`topShape` lists
+    `some tag` per element and `none` per text node / marker.)  The same holds at every depth, since the
+    children of each output element are produced by the same procedure (`C04_merge_rule`). -/
+theorem C04_top_level_scan (ns : List Node) : topShape (collapse ns) = mergeScan none ns :=
+  topShape_collapse ns
+
+/-- the tag that the next sibling is compared with is the tag of the HEAD of the current merge group
+    (`scanLast`), not of the sibling directly before it -/
+theorem C04_last_tag_scan (ns : List Node) : lastTag (collapse ns) = scanLast none ns := lastTag_collapse ns
+
+/-! non-vacuity: `ul|ol` merges into `ol`, and a following plain `ul` is then compared with `ol` (no merge) -/
+private def ulPlain : Tag := { name := S!"ul", collapsible := true }
+example : mergesInto (lastTag (collapse [.elem olFresh [.text S!"a"]])) ulTag = true := by decide
+example : mergesInto (lastTag (collapse [.elem olFresh [.text S!"a"], .elem ulTag [.text S!"b"]])) ulPlain = false := by
+  decide
+example : topShape (collapse [.elem olFresh [.text S!"a"], .elem ulTag [.text S!"b"], .elem ulPlain [], .text S!"x"])
+    = [some olFresh, some ulPlain, none] := by decide
 
 end Mammoth
